@@ -95,6 +95,35 @@ static Result check_oceanic(const J &c)
     return o[0];
   };
   const bool series = kind == "plate model" || kind == "plate model constant age";
+  // The plate models sum 100 terms of a Fourier series whose complete sum lies between the end members. What the cut-off can add is
+  // bounded by the sum of the magnitudes of all later terms, which matters at ages of a few thousand years (within a few km of a
+  // ridge that runs through the plate): that bound (capped at the Gibbs fraction 0.09) times the temperature range is allowed on top.
+  auto truncation_fraction = [&](double x, double y) {
+    if (!series) return 0.0;
+    const double year = 31557600.0;
+    long double tail = 0;
+    if (kind == "plate model constant age")
+      {
+        const long double age_s = t.at("plate age").num() * year;
+        for (int n = 101; n <= 200000; ++n) { const long double e = std::exp(-static_cast<long double>(n) * n * PI * PI * G.kappa * age_s / (L * L)); tail += 2.0L / (n * PI) * e; if (e < 1e-18L || tail > 0.09L) break; }
+      }
+    else if (t.at("spreading velocity").is_num())
+      {
+        long double dist = -1;
+        const J &rd = t.at("ridge coordinates")[0];
+        for (size_t i = 0; i + 1 < rd.size(); ++i)
+          {
+            const long double ax = rd[i][0].num(), ay = rd[i][1].num(), ex = rd[i + 1][0].num() - ax, ey = rd[i + 1][1].num() - ay;
+            const long double sp = std::max(0.0L, std::min(1.0L, ((x - ax) * ex + (y - ay) * ey) / (ex * ex + ey * ey)));
+            const long double d = std::hypot(x - (ax + sp * ex), y - (ay + sp * ey));
+            if (dist < 0 || d < dist) dist = d;
+          }
+        const long double v = t.at("spreading velocity").num() / year, Rn = v * L / (2 * G.kappa);
+        for (int n = 101; n <= 200000; ++n) { const long double e = std::exp((Rn - std::sqrt(Rn * Rn + static_cast<long double>(n) * n * PI * PI)) * (dist / L)); tail += 2.0L / (n * PI) * e; if (e < 1e-18L || tail > 0.09L) break; }
+      }
+    else return 0.09;
+    return static_cast<double>(std::min(tail, 0.09L));
+  };
   for (const auto &q : c.at("queries").a)
     {
       const double x = q.at("nat")[0].num(), y = q.at("nat")[1].num(), depth = std::min(q.at("depth").num(), L);
@@ -104,7 +133,11 @@ static Result check_oceanic(const J &c)
       const double Tb = t.at("bottom temperature").num() < 0 ? adiabat(G, depth) : t.at("bottom temperature").num();
       // a 100-term Fourier series overshoots next to the surface at young ages (Gibbs): allowance = 9% of the jump for the
       // plate models at depths shallower than 2% of the plate thickness, otherwise 1e-9 relative
-      const double tau = 1e-9 * Tb + (series && depth < 0.02 * L ? 0.09 * (Tb - Tt) : (series ? 1e-3 * (Tb - Tt) : 0.0));
+      // (the probes paired with this one below lie within 75 km of it: the largest of the bounds at those places is used for all)
+      double trunc = 0;
+      for (double ox : {0.0, 60e3, -60e3, 50e3, -50e3}) for (double oy : {0.0, 45e3, -45e3}) trunc = std::max(trunc, truncation_fraction(x + ox, y + oy));
+      if (trunc > 1e-4) r.classes.push_back("series cut-off visible (age of a few thousand years)");
+      const double tau = 1e-9 * Tb + (series && depth < 0.02 * L ? 0.09 * (Tb - Tt) : (series ? (1e-3 + trunc) * (Tb - Tt) : 0.0));
       r.inner++; r.inner_nt++; r.nontrivial = true;
       if (T < std::min(Tt, Tb) - tau || T > std::max(Tt, Tb) + tau)
         return Result::fail("oceanic-envelope/" + kind, "oceanic '" + kind + "' returns " + fmt(T) + " at depth " + fmt(depth) + ", outside [top " + fmt(Tt) + ", bottom " + fmt(Tb) + "]; model " + t.dump());
